@@ -142,6 +142,11 @@ def single_faults(tc: bool, tier: str) -> List[List]:
         for how in ("fin", "rst"):
             for k in (1, 2, 3):
                 out.append(["adie", role, how, k, "reports"])
+    # ... hundreds of subscribers of the manager's own notices reset at the same instant: every departure is announced to the
+    # others, each announcement uncovers the next dead one
+    for n in ((120, 300) if tier == "quick" else (100, 250, 300, 600)):
+        for sub in (P.MT_CLIENT_CLOSED, P.ALL_MESSAGE_TYPES, P.MT_FAILED_MESSAGE):
+            out.append(["mass-die", n, sub])
     # ... an exclusive newcomer asks for an id that two connections share (both allow multiple instances): whoever is refused, the
     # holders stay connected, acknowledged and served
     for am in (0, 1):
@@ -301,6 +306,20 @@ def apply_fault(cx: Ctx, fault: Sequence, name: str = "X", hid=None) -> List[str
         # the bystander publishes in the same round: the manager meets the dead connections on its write side
         w.clients["P"].send(P.mkframe(T1, b"wdie", timecode=tc, src_mod_id=21))
         return [name, "P"]
+    if kind == "mass-die":
+        _, n, sub = fault
+        tc = cx.tc
+        cs = [cx.new(f"{name}M{i}", None) for i in range(n)]
+        w.settle(limit=10 ** 5)
+        for c in cs:
+            c.send(_frame(tc, P.MT_CONNECT_V2, P.P_CONNECT_V2.pack(0, 0, 1, 50, 1, b"crowd"), src_mod_id=50) + _frame(tc, P.MT_SUBSCRIBE, P.p_sub(sub), src_mod_id=50))
+        w.settle(limit=10 ** 5)
+        for c in cs:
+            c.rst()
+        w.clients["P"].send(P.mkframe(T1, b"crowd", timecode=tc, src_mod_id=21))
+        if w.alive:
+            w.settle(limit=10 ** 5)
+        return [name]
     if kind == "shared-id-newcomer":
         _, am, how = fault
         tc = cx.tc
